@@ -27,11 +27,11 @@ constexpr int DMAX = VM_DMAX;
 enum Kind : unsigned char {
 	INDEX, SLICED, SLICED3, STRIDED, DROPPED, TAKED, ROTATED, UNROTATED, TRANSPOSED, TILDE, REVERSED, DIAGONAL,
 	PARTITIONED, CHUNKED, FLATTED, PAREN0, CALL,
-	REINDEXED, BLOCKED, STENCILED,  // C19 only
+	REINDEXED, BLOCKED, STENCILED, REINDEXEDN,  // C19 only
 	NKINDS
 };
 static char const* const kname[] = {"index", "sliced", "sliced3", "strided", "dropped", "taked", "rotated", "unrotated", "transposed", "tilde", "reversed", "diagonal",
-	"partitioned", "chunked", "flatted", "paren0", "call", "reindexed", "blocked", "stenciled"};
+	"partitioned", "chunked", "flatted", "paren0", "call", "reindexed", "blocked", "stenciled", "reindexedn"};
 
 enum AKind : unsigned char { A_IDX, A_RNG, A_ALL };
 struct Arg { unsigned char kind; signed char a, b; };
@@ -47,6 +47,7 @@ inline std::string op_str(Op const& o) {
 		case INDEX: case STRIDED: case DROPPED: case TAKED: case PARTITIONED: case CHUNKED: case REINDEXED: s += I(o.a); break;
 		case SLICED: case BLOCKED: case STENCILED: s += I(o.a) + "," + I(o.b); break;
 		case SLICED3: s += I(o.a) + "," + I(o.b) + "," + I(o.c); break;
+		case REINDEXEDN: s += I(o.a) + "," + I(o.b); if(o.nargs >= 3) { s += "," + I(o.c); } break;
 		case CALL:
 			for(int j = 0; j < o.nargs; ++j) {
 				if(j) { s += ","; }
@@ -87,6 +88,7 @@ inline bool parse_op(std::string const& t, Op& o) {
 		if(parts.size() > 0) { o.a = static_cast<signed char>(std::atoi(parts[0].c_str())); }
 		if(parts.size() > 1) { o.b = static_cast<signed char>(std::atoi(parts[1].c_str())); }
 		if(parts.size() > 2) { o.c = static_cast<signed char>(std::atoi(parts[2].c_str())); }
+		if(o.k == REINDEXEDN) { o.nargs = static_cast<unsigned char>(parts.size()); }
 	}
 	return true;
 }
@@ -161,6 +163,7 @@ inline bool m_apply(MView& v, Op const& o) {
 			d = nd; return true;
 		}
 		case REINDEXED: d[0].first = o.a; return true;
+		case REINDEXEDN: if(D < o.nargs) { return false; } d[0].first = o.a; d[1].first = o.b; if(o.nargs >= 3) { d[2].first = o.c; } return true;
 		case BLOCKED: case STENCILED: v.base += (o.a - d[0].first)*d[0].stride; d[0].size = o.b - o.a; d[0].first = o.a; return true;
 		default: return false;
 	}
@@ -223,6 +226,8 @@ inline std::vector<Op> enabled(MView const& v, Menu const& mn) {
 	}
 	if(mn.rebase_ops) {
 		for(idx k : {idx{-1}, idx{0}, idx{2}}) { r.push_back(mk(REINDEXED, k)); }
+		if(D >= 2) { for(idx a : {idx{-1}, idx{1}}) { for(idx b : {idx{0}, idx{2}}) { Op o = mk(REINDEXEDN, a, b); o.nargs = 2; r.push_back(o); } } }
+		if(D >= 3) { for(idx a : {idx{1}}) { for(idx b : {idx{-1}, idx{2}}) { for(idx c : {idx{0}, idx{3}}) { Op o = mk(REINDEXEDN, a, b, c); o.nargs = 3; r.push_back(o); } } } }
 		if(!(v.ro && D >= 2)) { for(idx a = f; a <= l; ++a) { for(idx b = a; b <= l; ++b) { r.push_back(mk(BLOCKED, a, b)); r.push_back(mk(STENCILED, a, b)); } } }
 	}
 	return r;
@@ -277,6 +282,10 @@ void apply1(V&& v, Op const& o, K&& k) {
 		case CALL: call_rec<0>(std::forward<V>(v), o, 0, k); return;
 #ifdef VM_REBASE_OPS
 		case REINDEXED: k(v.reindexed(o.a)); return;
+		case REINDEXEDN:
+			if constexpr(D >= 2) { if(o.nargs == 2) { k(v.reindexed(o.a, o.b)); return; } }
+			if constexpr(D >= 3) { if(o.nargs == 3) { k(v.reindexed(o.a, o.b, o.c)); return; } }
+			return;
 		case BLOCKED: if constexpr(!GAP) { k(v.blocked(o.a, o.b)); } return;
 		case STENCILED: if constexpr(!GAP) { k(v.stenciled(multi::index_extension{o.a, o.b})); } return;
 #endif
